@@ -296,13 +296,45 @@ pub fn run(ctx: &Ctx) -> i32 {
             acc.merge(p);
         }
     }
+    // `step out` belongs to the extension (it follows CALL/RETS and JSR/RET nesting): without the
+    // flag it is refused at EVERY program counter - also on a RET / RETS word - and changes nothing.
+    {
+        let progs: [(&str, &str); 2] = [
+            ("jsr-ret", "jsr f\nadd r1 r1 #1\nhalt\nf add r2 r2 #1\njsr g\nadd r2 r2 #1\nret\ng add r3 r3 #1\nret\n"),
+            ("raw-rets-word", "add r1 r1 #1\nlea r7 w\n.fill xD800\nhalt\nw .fill x3003\n"),
+        ];
+        let parts = pooled(Some(Env::new(false)), progs.len() * 12, 1, Acc::new, |acc, i| {
+            let (name, text) = progs[i / 12];
+            let k = i % 12;
+            acc.eval("step-out-without-flag");
+            let a = crate::session::session(text, Env::new(false), Some(&format!("si {k};registers;exit")), 100_000);
+            let b = crate::session::session(text, Env::new(false), Some(&format!("si {k};so;registers;exit")), 100_000);
+            let case = json!({"step_out": true, "program": name, "source": text, "steps": k});
+            match (a, b) {
+                (Ok(crate::session::SessionResult::Ran(a)), Ok(crate::session::SessionResult::Ran(b))) => {
+                    if a.ended != b.ended {
+                        acc.violation("C18/step-out-without-flag/ends-differently", format!("{name}: after `si {k}` a `step out` without the flag changes how the session ends: {:?} vs {:?}", b.ended, a.ended), case);
+                    } else if let Some(d) = crate::session::machine_diff(&b.machine, &a.machine) {
+                        acc.violation("C18/step-out-without-flag/executes", format!("{name}: after `si {k}` a `step out` without the flag is not refused, the machine moved: {d}"), case);
+                    } else {
+                        acc.nontrivial();
+                        acc.gate("step-out-refused-without-flag");
+                    }
+                }
+                _ => acc.skip("session did not run"),
+            }
+        });
+        for p in parts {
+            acc.merge(p);
+        }
+    }
     finish(
         ctx,
         acc,
         Level { category: "model_checking", bfs: None },
-        "exhaustive configuration enumeration: {no flag, -f stack, --features stack, --features=, the list forms `,stack` `stack,` `,,stack` `,`, the flag both before and after the sub-command} x sources using each of push/pop/call/rets as instruction (three letter cases), in label position and as a label operand; sources and .lc3 images with raw xD words of all four sub-kinds reached at run time (and present but never reached), and programs that synthesise such a word at run time (it is not in the image); 8 seed programs without the extension - through `lace compile`, `lace run`, the bare-path form `lace FILE` and `lace debug FILE --command quit` of the real binary (the latter two must behave like `run`): without the flag the diagnostic must name the feature and opcode xD must exit with status 1 having executed only what precedes it, with it the programs assemble and run as the reference machine says. In-process: machines with different flag values one after the other in one process (both orders); a corpus of programs without the four mnemonics (E1 single statements, E2 label placements, .fill sweep) and the C03 templates without opcode xD, assembled / run under BOTH flag values and compared with the flag-independent reference. non-trivial = agreeing cases",
+        "exhaustive configuration enumeration: {no flag, -f stack, --features stack, --features=, the list forms `,stack` `stack,` `,,stack` `,`, the flag both before and after the sub-command} x sources using each of push/pop/call/rets as instruction (three letter cases), in label position and as a label operand; sources and .lc3 images with raw xD words of all four sub-kinds reached at run time (and present but never reached), and programs that synthesise such a word at run time (it is not in the image); 8 seed programs without the extension - through `lace compile`, `lace run`, the bare-path form `lace FILE` and `lace debug FILE --command quit` of the real binary (the latter two must behave like `run`): without the flag the diagnostic must name the feature and opcode xD must exit with status 1 having executed only what precedes it, with it the programs assemble and run as the reference machine says. In-process: machines with different flag values one after the other in one process (both orders); a corpus of programs without the four mnemonics (E1 single statements, E2 label placements, .fill sweep) and the C03 templates without opcode xD, assembled / run under BOTH flag values and compared with the flag-independent reference; `step out` without the flag after 0..11 instructions of a JSR/RET program and of one with a raw RETS word (refused everywhere: same machine as without it). non-trivial = agreeing cases",
         true,
-        &["rejected-with-feature-diagnostic", "opcode-xD-gated-at-run-time", "extension-executes-with-flag", "corpus-image-flag-independent", "run-flag-independent"],
+        &["rejected-with-feature-diagnostic", "opcode-xD-gated-at-run-time", "extension-executes-with-flag", "corpus-image-flag-independent", "run-flag-independent", "step-out-refused-without-flag"],
         &["reference image and machine are flag-independent for programs that avoid the extension"],
         json!({"cli_cases": cases.len() * flags.len(), "corpus": corpus.len()}),
     )
